@@ -109,6 +109,8 @@ def gcc_callers(chk, model, quick):
             body = H.gen_body(rng)
             if body['kind'] == 'leafpress':
                 body['kind'] = 'pressure'
+            if p['vararg'] and len(p['args']) > p['nfixed'] and rng.random() < 0.6:
+                body.update(vaplan=H.va_plan(rng, p), deadfx=rng.random() < 0.5)
             c = dict(proto=p, vals=vals, resvals=resvals, body=body, engine=e, junk=[], target='gcaller%d' % k)
             vb = bytearray(H.vals_buffer(p, body, resvals))
             ab = G.vals_bytes(p, vals)
@@ -127,14 +129,17 @@ def gcc_callers(chk, model, quick):
         r = rows.get('q%d' % i, dict(status='missing', detail=err[-200:]))
         chk.count(('gcc-caller', G.proto_sig(p), c['engine'], c['body']['kind']), nontrivial=len(p['args']) >= 2)
         chk.dist('threeway', 'gcc-caller->mir')
+        if H.va_plan_kind(p, c['body']):
+            chk.dist('variadic_tail_consumption', H.va_plan_kind(p, c['body']))
         bad = []
         if r['status'] != 'ok':
             bad.append('%s %s' % (r['status'], r.get('detail', '')))
         else:
             outs = r['outs']
             offs, _ = G.layout(p)
+            observed = H.va_observed(p, c['body'])
             for k, (t, b, off) in enumerate(zip(p['args'], c['vals'], offs)):
-                if t.startswith('rblk'):
+                if t.startswith('rblk') or k not in observed:
                     continue
                 want = H.expected_param_bytes(t, b, 0, off)
                 if outs[off:off + len(want)] != want:
@@ -193,6 +198,21 @@ def c06_boundary():
     return out
 
 
+def c06_vaskip_protos():
+    """variadic prototypes whose tails cross the register-save-area / overflow-area boundaries in every class, so that a
+    skipped argument of each class is followed by arguments from the same and from the other areas"""
+    i64 = 'i64'
+    out = []
+    for a, nf in ((['p', i64, i64, i64], 1), (['p', 'd', 'd', 'd'], 1), (['p', 'ld', 'ld', i64], 1), (['p', i64, 'd', i64, 'd', 'ld', i64, 'd'], 1),
+                  (['p'] + [i64] * 9, 1), (['p'] + ['d'] * 11, 1), ([i64] * 6 + [i64, i64, 'd'], 6), (['p', i64, i64, i64, i64] + [i64] * 4, 5),
+                  (['d'] * 7 + ['d', 'd', 'd', i64], 7), (['p', 'blk:24', i64, 'blk:24', i64], 1), (['p', 'blk1:16', i64, 'blk1:16', i64, 'blk1:8', i64, i64], 1),
+                  (['p', 'blk2:16', 'd', 'blk2:8', 'd', 'd', 'd', 'blk2:16', 'd', 'd'], 1), (['p', 'blk3:16', i64, 'd', 'blk4:16', 'd', i64], 1),
+                  (['p', i64, 'blk:0', i64, 'blk:9', i64], 1), (['p', 'ld', i64, 'ld', 'd', 'ld'], 1), (['p', 'u8', 'd'] + [i64, 'd'] * 10, 3),
+                  (['p', 'blk:40', 'blk:40', 'blk:40', 'd'], 1)):
+        out.append(dict(args=list(a), nfixed=nf, vararg=True, res=['i64'] if len(a) % 2 else [], style='vaskip'))
+    return out
+
+
 def gen_cases(chk, quick):
     rng = chk.rng('c06')
     protos = c06_boundary() + [p for p in G.boundary_protos() if not (p['vararg'] and p['nfixed'] == 0)]
@@ -221,7 +241,36 @@ def gen_cases(chk, quick):
                     cases.append(dict(proto=p, vals=vals, resvals=resvals, body=b, engine=e, junk=junk))
             continue
         for e in dict.fromkeys(engs):
-            cases.append(dict(proto=p, vals=vals, resvals=resvals, body=H.gen_body(rng), engine=e, junk=junk))
+            b = H.gen_body(rng)
+            if p['vararg'] and len(p['args']) > p['nfixed'] and rng.random() < 0.5:
+                b.update(vaplan=H.va_plan(rng, p), deadfx=rng.random() < 0.5)
+            cases.append(dict(proto=p, vals=vals, resvals=resvals, body=b, engine=e, junk=junk))
+    # variadic MIR callees that SKIP arguments (va_arg / va_block_arg whose value is not looked at: result unused,
+    # overwritten by the next va_arg, used on one path only; singly, in loops, in branches) of every class and then read
+    # later ones -- side-effecting insns with dead outputs must survive every optimisation level
+    vr = chk.rng('c06-vaskip')
+    vprotos = [p for p in c06_vaskip_protos()]
+    for _ in range(16 if quick else 400):
+        q = G.gen_proto(vr, min_fixed=1)
+        if not q['vararg'] or len(q['args']) - q['nfixed'] < 2:
+            a = [G.gen_arg_type(vr, vr.choice(['int', 'fp', 'blk', 'ld', 'mix']), tail=True) for _ in range(vr.randint(2, 9))]
+            q = dict(args=['p'] * vr.choice([1, 1, 2, 5, 6]) + a, vararg=True, res=q['res'], style='vaskip')
+            q['nfixed'] = len(q['args']) - len(a)
+        vprotos.append(q)
+    for k, p in enumerate(vprotos):
+        vals, _ = G.gen_values(vr, p)
+        vals = G.fix_values(p, vals, vr)
+        resvals = H.res_values(vr, p)
+        junk = [vr.getrandbits(64) for _ in range(40)]
+        sts = ['skipfirst', 'lastonly', vr.choice(H.VA_STRATEGIES)] if k < len(c06_vaskip_protos()) else [vr.choice(H.VA_STRATEGIES)]
+        for st in sts if quick else H.VA_STRATEGIES:
+            b = H.gen_body(vr)
+            if b['kind'] in ('leafpress', 'inl'):
+                b['kind'] = 'plain'
+            b.update(vaplan=H.va_plan(vr, p, st), deadfx=vr.random() < 0.5)
+            engs = ENGINES if not quick else ['interp', vr.choice(['gen0', 'gen1']), 'gen2', 'gen3', vr.choice(['lazy', 'lazybb'])]
+            for e in dict.fromkeys(engs):
+                cases.append(dict(proto=p, vals=vals, resvals=resvals, body=b, engine=e, junk=junk))
     # MIR functions that themselves call with every argument-placement kind, under register pressure, with and
     # without frame-pointer-forcing features; the values live across the call and the callee's image are checked
     xr = chk.rng('c06-xcall')
@@ -277,8 +326,9 @@ def shrink_case(impl, model, c):
             p2['args'] = proto['args'][:i] + proto['args'][i + 1:]
             p2['nfixed'] = proto['nfixed'] - (1 if i < proto['nfixed'] else 0)
             v2 = vals[:i] + vals[i + 1:]
-            if fails(dict(c, proto=p2, vals=v2, resvals=resvals, body=body)):
-                proto, vals, changed = p2, v2, True
+            b2 = H.plan_remove(proto, body, i)
+            if fails(dict(c, proto=p2, vals=v2, resvals=resvals, body=b2)):
+                proto, vals, body, changed = p2, v2, b2, True
         for i in range(len(proto['res']) - 1, -1, -1):
             p2 = dict(proto)
             p2['res'] = proto['res'][:i] + proto['res'][i + 1:]
@@ -337,6 +387,8 @@ def run(chk):
             chk.dist('xcall_live_values', '%s ints, %s doubles' % ('0' if c['body']['ni'] == 0 else '<=6' if c['body']['ni'] <= 6 else '>6',
                                                                   '0' if c['body']['nd'] == 0 else '<=9' if c['body']['nd'] <= 9 else '>9'))
         chk.dist('vararg', p['vararg'])
+        if H.va_plan_kind(p, c['body']):
+            chk.dist('variadic_tail_consumption', H.va_plan_kind(p, c['body']))
         chk.dist('nargs', min(len(p['args']), 20) // 4 * 4)
     chk.cov['rule'] = ('seeded + boundary + corpus signatures x random values x {interp shim, gen -O0..-O3, lazy} x callee bodies '
                        '{plain, register pressure, fp pressure, alloca, nested call}: an assembly trampoline places the arguments '
